@@ -46,7 +46,7 @@ def explore(ctx):
     res.rule = RULE
     depth = 3 if ctx.tier == "quick" else 4
     n = ctx.n(160, 2500)
-    jobs = core.gen_jobs(ctx, n, "c13", dict(max_depth=depth, unions="optional"), make_ops(depth))
+    jobs = core.corpus_jobs("C13") + core.gen_jobs(ctx, n, "c13", dict(max_depth=depth, unions="optional"), make_ops(depth))
     real, model = core.run_jobs(jobs)
     res.programs = len(jobs)
     for job, op, r_, m_ in core.iter_results(jobs, real, model):
